@@ -142,7 +142,12 @@ pub fn gen_sql_expr(rng: &mut Rng, depth: usize, t: Ty, sch: &Schema, joined: bo
             }
             3 => format!("({} IS {}NULL)", sub(rng, *rng.clone().pick(&[Ty::Int, Ty::Text, Ty::Real])), if rng.chance(1, 2) { "NOT " } else { "" }),
             4 | 5 => format!("({} {} {})", cond(rng), rng.pick(&["AND", "OR"]), cond(rng)),
-            6 => format!("(NOT {})", sub(rng, Ty::Bool)),
+            // NOT over every kind of condition; half of the time over an IN / NOT IN test with a nullable operand or a NULL
+            // member (where `NOT (x IN …)` and `x NOT IN …` differ: a lowering that folds the one into the other is visible)
+            6 => if rng.chance(1, 2) {
+                let (c, ot) = *rng.pick(&[("w", Ty::Int), ("k", Ty::Text), ("v", Ty::Int)]);
+                format!("(NOT ({} {}IN ({}, {})))", c, if rng.chance(1, 3) { "NOT " } else { "" }, sql_lit(rng, ot), if rng.chance(1, 4) { "NULL".to_owned() } else { sql_lit(rng, ot) })
+            } else { format!("(NOT {})", sub(rng, Ty::Bool)) },
             7 => {
                 let ot = *rng.pick(&[Ty::Int, Ty::Text]);
                 format!("({} {}IN ({}, {}))", sub(rng, ot), if rng.chance(1, 2) { "NOT " } else { "" }, sql_lit(rng, ot), if rng.chance(1, 5) { "NULL".to_owned() } else { sql_lit(rng, ot) })
